@@ -8,6 +8,7 @@ import (
 	"crypto/ecdsa"
 	"crypto/rsa"
 	"crypto/sha256"
+	"errors"
 	"fmt"
 	"net/http"
 	"net/url"
@@ -24,6 +25,9 @@ import (
 	"github.com/google/certificate-transparency-go/tls"
 	"github.com/google/certificate-transparency-go/trillian/ctfe"
 	"github.com/google/certificate-transparency-go/x509"
+	"google.golang.org/grpc/codes"
+	"google.golang.org/grpc/status"
+	"google.golang.org/protobuf/proto"
 	"pgregory.net/rapid"
 
 	"verif/internal/ctfex"
@@ -61,6 +65,8 @@ type Case struct {
 	// callbacks. Neither may change what is logged or served.
 	Verbosity  int
 	QuotaUsers bool
+	// BackendMax > 0: the backend returns at most that many leaves per range request (short pages)
+	BackendMax int
 	// Bulky: some certificates carry 300-450 KiB of padding, so that a few entries exceed a megabyte
 	Bulky bool
 	// concurrent variant
@@ -96,6 +102,9 @@ func genOps(t *rapid.T, n int, label string) []Op {
 			if rapid.Bool().Draw(t, "clk") {
 				// the front end's clock is stepped, backwards as often as forwards (front ends of one log do not share a clock)
 				ops = append(ops, Op{Kind: "clock", A: rapid.IntRange(-5000, 5000).Draw(t, "dms")})
+			} else if rapid.Bool().Draw(t, "sthfault") {
+				// the backend fails the next tree-head request(s) with a transient error: get-sth may fail, it must not lie
+				ops = append(ops, Op{Kind: "sthfault", A: rapid.IntRange(0, 5).Draw(t, "code"), B: rapid.IntRange(1, 2).Draw(t, "times")})
 			} else {
 				ops = append(ops, Op{Kind: "roots"})
 			}
@@ -126,6 +135,28 @@ func gen(t *rapid.T) Case {
 		}
 	}
 	genProcessOptions(t, &c)
+	if rapid.IntRange(0, 3).Draw(t, "sameissuer") == 0 {
+		// every submission of the history is issued by the same CA (their stored chains are one and the same),
+		// and the ranges read are long
+		var first *world.ChainSpec
+		for i := range c.Ops {
+			sp := c.Ops[i].Spec
+			if c.Ops[i].Kind == "entries" {
+				c.Ops[i].B = 2 + c.Ops[i].B%4
+			}
+			if c.Ops[i].Kind != "add" || sp.RootOnly {
+				continue
+			}
+			if first == nil {
+				first = sp
+				continue
+			}
+			sp.Root, sp.Inters, sp.Cross, sp.CrossAlt, sp.RootTwin = first.Root, first.Inters, first.Cross, first.CrossAlt, first.RootTwin
+			if rapid.Bool().Draw(t, "precert") {
+				sp.Precert, sp.PreIssuer = true, false
+			}
+		}
+	}
 	return c
 }
 
@@ -134,6 +165,9 @@ func genProcessOptions(t *rapid.T, c *Case) {
 		c.Verbosity = rapid.IntRange(1, 5).Draw(t, "v")
 	}
 	c.QuotaUsers = rapid.IntRange(0, 2).Draw(t, "quota") == 0
+	if rapid.IntRange(0, 2).Draw(t, "shortpages") == 0 {
+		c.BackendMax = rapid.IntRange(1, 3).Draw(t, "bmax")
+	}
 }
 
 // bulkUp gives most submissions of a history 300-450 KiB of padding and makes the get-entries ranges long.
@@ -182,11 +216,17 @@ type run struct {
 	// lc2 talks to a second log instance with ANOTHER key over the same backend (two logs in one process
 	// whose tree heads are byte-identical): each must serve STHs under its own key
 	lc2 *client.LogClient
+	// faultySTH: the backend's tree-head RPC is failing right now (sequential runs only)
+	faultySTH bool
 }
 
 func newRun(t *testing.T, v *harness.Verdict, c Case) *run {
 	r := &run{t: t, v: v, logKey: keys.Pick(c.LogKeyKind, 3+c.LogKeyIdx), be: reflog.New(6962, 1000003), wantExtra: map[string][][]byte{}, indirect: c.Indirect}
 	r.clock = ctfex.NewClock(time.UnixMilli(c.ClockMs))
+	r.be.MaxLeavesPerRange = c.BackendMax
+	if c.BackendMax > 0 {
+		v.Class("backend-short-pages")
+	}
 	o := ctfex.Opts{LogKey: r.logKey, Roots: world.Roots(), Backend: r.be, Clock: r.clock}
 	if c.QuotaUsers {
 		o.Inst = func(io *ctfe.InstanceOptions) {
@@ -421,6 +461,24 @@ func (r *run) exec(ctx context.Context, op Op, concurrent bool) {
 		r.be.Sequence(op.A, ns)
 	case "sth":
 		r.getSTH(ctx, concurrent)
+	case "sthfault":
+		if concurrent {
+			return // the fault hook is one field of the shared backend
+		}
+		errs := []error{status.Error(codes.Unavailable, "injected"), status.Error(codes.DeadlineExceeded, "injected"), context.DeadlineExceeded, status.Error(codes.ResourceExhausted, "injected"), status.Error(codes.Internal, "injected"), errors.New("injected")}
+		left := op.B
+		r.be.Intercept = func(c reflog.Call) (proto.Message, error, bool) {
+			if c.RPC == "GetLatestSignedLogRoot" && left > 0 {
+				left--
+				return nil, errs[op.A%len(errs)], true
+			}
+			return nil, nil, false
+		}
+		r.faultySTH = true
+		r.getSTH(ctx, false)
+		r.faultySTH = false
+		r.be.Intercept = nil
+		r.class("get-sth-under-backend-fault")
 	case "cons":
 		cur := r.be.CurrentRoot().TreeSize
 		if cur == 0 {
@@ -594,6 +652,9 @@ func (r *run) rootFor(n uint64) [32]byte {
 func (r *run) getSTH(ctx context.Context, concurrent bool) {
 	before := len(r.be.PublishedRoots())
 	sth, err := r.lc.GetSTH(ctx) // the client verifies the signature under the configured key
+	if err != nil && r.faultySTH {
+		return // the backend could not be asked: an error is the honest answer
+	}
 	if err != nil {
 		r.failf("sth-refused", "get-sth: %v", err)
 		return
@@ -621,7 +682,7 @@ func (r *run) getSTH(ctx context.Context, concurrent bool) {
 	r.mu.Lock()
 	r.sths = append(r.sths, sthRec{sth.TreeSize, sth.SHA256RootHash, sth.Timestamp})
 	r.mu.Unlock()
-	if r.lc2 != nil {
+	if r.lc2 != nil && !r.faultySTH {
 		// the twin log (same backend, other key) is asked right after: its client verifies under the twin's key
 		if _, err := r.lc2.GetSTH(ctx); err != nil {
 			r.failf("twin-sth", "a second log instance with its own key over the same tree served an STH its key does not verify: %v", err)
